@@ -107,10 +107,10 @@ HourMinuteMerge(t, nx) == /\ IsN(t) /\ t.len <= 2 /\ t.val <= 23 /\ (t.len = 1 =
 RECURSIVE Pow10(_)
 Pow10(n) == IF n = 0 THEN 1 ELSE 10 * Pow10(n - 1)
 \* MICROSECOND.search(next).group(): the first run of at most six digits of the next token
-MicroOf(nx) == IF nx.k = "n"
-                 THEN IF nx.len <= 6 THEN <<nx.len, nx.val>>
-                      ELSE <<6, nx.val \div Pow10(nx.len - 6)>>
-               ELSE IF nx.k = "c" /\ Len(nx.parts) > 0 THEN nx.parts[1] ELSE <<>>
+First6(len, val) == IF len <= 6 THEN <<len, val>> ELSE <<6, val \div Pow10(len - 6)>>
+MicroOf(nx) == IF nx.k = "n" THEN First6(nx.len, nx.val)
+               \* (a colon token after the point, '15.12345610:0': the digits before its first colon)
+               ELSE IF nx.k = "c" /\ Len(nx.parts) > 0 THEN First6(nx.parts[1][1], nx.parts[1][2]) ELSE <<>>
 
 \* F: filtered tokens (type <= 1) with F[i].o = index in the full list T
 TimeStep(s, T, F, idx) ==
@@ -162,8 +162,10 @@ TimeValue(tt) ==
          THEN <<ApplyMer(P[1][2], mer), P[2][2], P[3][2], 0>>
        ELSE IF n = 2 /\ IHourOK(P[1]) /\ PartOK(P[2], 59)
          THEN <<ApplyMer(P[1][2], mer), P[2][2], 0, 0>>
-       ELSE IF n = 2 /\ PartOK(P[1], 23) /\ PartOK(P[2], 59) /\ ApplyMer(P[1][2], mer) <= 23
-         THEN <<ApplyMer(P[1][2], mer), P[2][2], 0, 0>>
+       \* the last directive, "%H:%M %p": a 24-hour clock with a meridian that strptime reads and ignores (hours 0 and 13..23
+       \* get here; 1..12 were served by "%I:%M %p")
+       ELSE IF n = 2 /\ PartOK(P[1], 23) /\ PartOK(P[2], 59)
+         THEN <<P[1][2], P[2][2], 0, 0>>
        ELSE IF n = 1 /\ IHourOK(P[1]) THEN <<ApplyMer(P[1][2], mer), 0, 0, 0>>
        ELSE Fail
   ELSE IF mer = "" THEN
